@@ -146,6 +146,16 @@ impl TransportFn<()> for Run {
         if accepted & F_EVENT_IDX == 0 && used_event_after != used_event_before {
             violation("event-idx-not-negotiated", site, "used_event was written although EVENT_IDX was not negotiated".into());
         }
+        // With EVENT_IDX negotiated the used-event index must have been re-armed after every
+        // consumed completion: on request queues everything has been consumed by now.
+        if accepted & F_EVENT_IDX != 0 {
+            for q in self.kind.request_queues() {
+                let (ue, used, done) = with(|w| (w.used_event_mem(*q), w.dq.get(*q as usize).map(|d| d.used_idx), w.dq.get(*q as usize).map(|d| d.completed).unwrap_or(0)));
+                if done > 0 && ue != used {
+                    violation("used-event-not-rearmed", site, format!("queue {q}: EVENT_IDX negotiated, {done} completions consumed, used_event is {ue:?} (device's used index {used:?})"));
+                }
+            }
+        }
         with(|w| w.check_no_lost_wakeup(site));
         drop(d);
     }
